@@ -34,6 +34,20 @@ Theorems (Property.v; all closed under the global context):
                          attributes; repaired in /repo by 5e4600e, model and theorem changed in the same step;
                          the probe below now expects nothing to survive.)
   C19_noncascade_breaks  (documented behaviour, not a finding) remove without cascade leaves a dangling ref
+Second deepening round (2026-09-26): the model is the source.
+  Gen/C19Gen.v is regenerated on every run by harness/props/_c19_gen.py: 25 methods are statement-pinned (digest of
+  the docstring-free AST: Node.shard / sharding_of / _drop_sharding_for_value / set_pipeline_stage /
+  replace_input_with / resize_inputs / resize_outputs, Model.add_/remove_device_configuration / clone,
+  Cloner._remap_device_configurations, serde's 12 (de)serializers of the multi-device messages, the checker), and
+  the 20 decision sites of shard / set_pipeline_stage / sharding_of / _drop_sharding_for_value /
+  remove_device_configuration (+ cascade _is_target) are translated expression by expression (`is` -> identity,
+  ==/!=/in on ModelConfiguration -> field equality c_equal, on Value -> identity).  C19/GenEquiv.v proves the hand
+  model's ops equal to the methods re-assembled from the generated sites (C19_model_is_translation,
+  C19_drop_is_translation) and C19_configurations_by_identity (an unregistered object is rejected even when an
+  equal one is registered).  After a deliberate change of /repo to a pinned method: re-pin with
+  `python -m harness.props._c19_gen --pin` once the model has been compared with the new text.
+  Cross-root uses (a function node reading a main-graph value and vice versa) are now in the model: Model.clone
+  clones the main graph and the function with separate value maps.
 Deepening round (2026-09-26):
   C19_deser_ser_id       serialization is now an explicit proto (Model.ser_model: ModelProto.configuration +
                          device_configurations of every NodeProto at every depth, by name) and an explicit
@@ -83,7 +97,7 @@ Modelled, not verified: protobuf field presence, Graph/Function containers and u
   values (graph inputs, node outputs) have non-empty names that identify them, and every input/output of every
   node resolves through the scope stack of its graph to itself; outside it the model answers Raise OtherError
   and the harness (World.rt_offenders mirrors the definition) does not call the implementation.
-  Nodes that own bodies are never removed; values are used only inside their own root (main graph / function).
+  Nodes that own bodies are never removed.
 Observations on the three reading decisions (probed on every run, evidence key probes_outside_alphabet;
   none is a violation of the statement, which lists none of them):
   * Node.shard accepts device indices outside range(num_devices); the library's check then reports
@@ -135,6 +149,23 @@ import re
 
 from harness import common
 from harness.common import REPO, clist, copt
+
+# --------------------------------------------------------------------------- translation (Gen/C19Gen.v)
+
+def generate(ck) -> bool:
+    """Regenerate Gen/C19Gen.v from /repo (statement pins + translated decision sites, harness/props/_c19_gen.py).
+    Fail closed: a pinned method that changed or a site outside the translatable fragment is a broken obligation."""
+    from translate import Unsupported
+
+    from harness.props import _c19_gen
+    try:
+        text = _c19_gen.translate(os.path.join(REPO, "src", "onnx_ir"))
+    except (Unsupported, SyntaxError, OSError, IndexError) as e:
+        ck.gen_failed("C19Gen", e)
+        return False
+    ck.gen("C19Gen", text)
+    return True
+
 
 # --------------------------------------------------------------------------- Coq printers (Z scope)
 
@@ -926,11 +957,10 @@ class Gen:
                                and any(sp[0] == v for dc in nd["dc"] for sp in dc[2])]
                 i = r.choice(sharded_pos) if sharded_pos and r.random() < 0.6 else r.randrange(len(nd["in"]))
                 pool = [w.vrec(v) for v in w.visible(nid)]
-                if r.random() < 0.05:
-                    # any value of the same root (main graph / function), visible or not: forward references,
-                    # values local to a sibling body, the owner's own outputs
-                    root = w.nregion[nid]
-                    pool = [w.vrec(v) for sc in [root] + sorted(w.parent) if w._root(sc) == root for v in w.decl(sc)]
+                if r.random() < 0.06:
+                    # any declared value, visible or not: forward references, values local to a sibling body, the
+                    # owner's own outputs, and values of the OTHER root (function <-> main graph)
+                    pool = [w.vrec(v) for sc in [0, 1] + sorted(w.parent) for v in w.decl(sc)]
                 u = r.random()
                 if u < 0.25 or not pool:
                     v = None
@@ -1453,6 +1483,7 @@ def run(ck) -> None:
                        "non-empty and distinct"]
     ck.coverage["rule"] = ("history with at least one annotation followed by a successful graph edit / rename / "
                            "clone / round trip / configuration removal")
+    generate(ck)
     ck.prove()
     probes(ck)
 
